@@ -24,6 +24,13 @@ RAW = {
     "c12_class_chain_8": "pub L -> u32;\n " + " ".join("['a' '0'-'9']" for _ in range(8)) + " = 1,",
 }
 
+# KNOWN FINDING (known_findings.txt): code size doubles per concatenated set that mixes characters and ranges, because a
+# single-predecessor state reached through a character arm AND a range arm is inlined once per arm.  13 sets do not
+# expand + compile within the dedicated 60 s watchdog on this machine (12 sets: ~60 s and 2 GB; 14 sets: > 10 min).
+KNOWN_SLOW = {
+    "c12_class_chain_13": ("pub L -> u32;\n " + " ".join("['a' '0'-'9']" for _ in range(13)) + " = 1,", 60),
+}
+
 # several lexers in one module: generated item names must not clash
 MULTI = {
     "c12_two_lexers_tables": ["pub L1 -> u8;\n $$alphabetic '!' = 1,", "pub L2 -> u8;\n $$uppercase '!' = 1,\n 'a' > $$lowercase = 2,"],
